@@ -18,7 +18,7 @@ sh("git checkout -q --detach $(git -C /repo rev-parse HEAD) && git checkout -- .
 patch = open(os.path.join(out_dir, "change%s.diff" % n)).read()
 demo = open(os.path.join(out_dir, "demo%s.rs" % n)).read()
 mt = re.search(r"(teos(?:-common)?|watchtower-plugin)/src/[\w/]+\.rs", demo.split("\n")[0] + " " + demo[:400])
-demo_file = mt.group(0) if mt else None
+demo_file = sys.argv[5] if len(sys.argv) > 5 else (mt.group(0) if mt else None)
 if demo_file is None:
     print("cannot determine demo target file"); sys.exit(2)
 tests = re.findall(r"#\[(?:tokio::)?test[^\]]*\]\s*(?:pub\s+)?(?:async\s+)?fn\s+(\w+)", demo)
